@@ -271,7 +271,7 @@ func (s *Solver) Values(ts []*Term) ([]*Term, error) {
 		return nil, nil
 	}
 	if s.noModel {
-		return nil, fmt.Errorf("no model (answer came from the fallback solver)")
+		return s.fallbackValues(ts)
 	}
 	res := make([]*Term, len(ts))
 	before := len(s.declLvl)
@@ -574,4 +574,87 @@ func (s *Solver) script(res string) string {
 	}
 	sb.WriteString("(check-sat)\n")
 	return sb.String()
+}
+
+// fallbackValues obtains values from a from-scratch solver run (used when the incremental solver gave up
+// and the verdict came from the fallback).
+func (s *Solver) fallbackValues(ts []*Term) ([]*Term, error) {
+	script := strings.TrimSuffix(s.script("fallback-values"), "(check-sat)\n")
+	seen := map[*Term]bool{}
+	var declared []*Term
+	for _, t := range s.stack {
+		t.Vars(seen, &declared)
+	}
+	var sb strings.Builder
+	sb.WriteString("(set-option :produce-models true)\n")
+	sb.WriteString(script)
+	for _, t := range ts {
+		var vs []*Term
+		t.Vars(seen, &vs)
+		for _, v := range vs {
+			sb.WriteString(fmt.Sprintf("(declare-const |%s| %s)\n", v.S, v.Sort.SMT()))
+			if ax, ok := s.tt.VarAxioms[v.S]; ok {
+				sb.WriteString("(assert " + ax.SMT() + ")\n")
+			}
+		}
+	}
+	sb.WriteString("(check-sat)\n")
+	for _, t := range ts {
+		sb.WriteString("(get-value (" + t.SMT() + "))\n")
+	}
+	for _, argv := range [][]string{
+		{"cvc5", "--lang", "smt2", "--strings-exp", "-q", "--produce-models", "--tlimit=" + strconv.Itoa(s.timeout)},
+		{"z3-new", "-in", "-T:" + strconv.Itoa(s.timeout/1000+1)},
+	} {
+		cmd := exec.Command(argv[0], argv[1:]...)
+		cmd.Stdin = strings.NewReader(sb.String())
+		out, _ := cmd.Output()
+		txt := strings.TrimSpace(string(out))
+		if !strings.HasPrefix(txt, "sat") {
+			continue
+		}
+		rest := strings.TrimSpace(strings.TrimPrefix(txt, "sat"))
+		res := make([]*Term, 0, len(ts))
+		ok := true
+		for _, t := range ts {
+			// one s-expression per get-value
+			depth, end := 0, -1
+			inStr := false
+			for i := 0; i < len(rest); i++ {
+				c := rest[i]
+				if inStr {
+					if c == '"' {
+						inStr = false
+					}
+					continue
+				}
+				if c == '"' {
+					inStr = true
+				} else if c == '(' {
+					depth++
+				} else if c == ')' {
+					depth--
+					if depth == 0 {
+						end = i + 1
+						break
+					}
+				}
+			}
+			if end < 0 {
+				ok = false
+				break
+			}
+			v, err := parseValue(s.tt, rest[:end], t)
+			if err != nil {
+				ok = false
+				break
+			}
+			res = append(res, v)
+			rest = strings.TrimSpace(rest[end:])
+		}
+		if ok {
+			return res, nil
+		}
+	}
+	return nil, fmt.Errorf("no model (fallback solvers gave no values)")
 }
